@@ -86,3 +86,74 @@ func VH_C02_Step() {
 		vAssert(m[j] == recs[expect][j], "a record was returned that is not the next honest record (altered, replayed, reordered or cross-direction data accepted)")
 	}
 }
+
+// VH_C02_AfterError: the prefix property across read errors. The statement
+// says the plaintext returned to the reader is *always* a prefix of what the
+// peer wrote; a reader that calls Read again after an error (any net.Conn
+// user may) must therefore never be handed anything but the next honest
+// record it has not returned yet. The initiator writes three records; the
+// relay delivers a slice of the honest stream with one byte XORed (symbolic
+// position and mask; position beyond the slice = untouched) followed by a
+// second slice of the honest stream or junk; the reader calls ReadMessage
+// `reads` times whatever the outcome. Every successful call must return
+// exactly the next record in order.
+func VH_C02_AfterError() {
+	ini, rsp := vMachines()
+	maxRec := vParam("maxrec", 40)
+	const nrec = 3
+	var recs [nrec][]byte
+	var lens [nrec]int
+	w := &vPipeConn{out: make([]byte, 0, nrec*(maxRec+40))}
+	for i := 0; i < nrec; i++ {
+		lens[i] = vInt("len")
+		vAssume(lens[i] >= 0 && lens[i] <= maxRec)
+		recs[i] = vStream("rec", lens[i])
+		vAssert(ini.WriteMessage(recs[i]) == nil, "WriteMessage failed")
+		_, err := ini.Flush(w)
+		vAssert(err == nil, "Flush failed")
+	}
+	honest := w.out
+	in := make([]byte, 0, 3*nrec*(maxRec+40))
+	// first segment: honest prefix [0,b) with one flipped byte
+	b := vInt("b")
+	vAssume(b >= 0 && b <= len(honest))
+	in = append(in, honest[:b]...)
+	pos, mask := vInt("pos"), vU8("mask")
+	vAssume(pos >= 0 && pos < b && mask != 0)
+	in[pos] ^= mask
+	// second segment: any slice of the honest stream (replay, skip ahead,
+	// plain continuation) or junk
+	if vBool("junk2") {
+		a2 := vInt("a2")
+		vAssume(a2 >= 0 && a2 <= 100)
+		in = append(in, vStream("junk", a2)...)
+	} else {
+		a2, b2 := vInt("a2"), vInt("b2")
+		vAssume(a2 >= 0 && a2 <= b2 && b2 <= len(honest))
+		in = append(in, honest[a2:b2]...)
+	}
+	rd := &vPipeConn{buf: in}
+	expect := 0
+	reads := vParam("reads", 4)
+	for i := 0; i < reads; i++ {
+		m, err := rsp.ReadMessage(rd)
+		if err != nil {
+			vReach("after-error")
+			if rd.off >= len(rd.buf) {
+				break
+			}
+			continue
+		}
+		vReach("after-error-accepted")
+		vAssert(expect < nrec, "more records returned than were written")
+		if expect >= nrec {
+			return
+		}
+		vAssert(len(m) == lens[expect], "after a read error a record was returned that is not the next honest record: what the reader has received is no longer a prefix of what the peer wrote (length)")
+		j := vInt("j")
+		if j >= 0 && j < len(m) && j < lens[expect] {
+			vAssert(m[j] == recs[expect][j], "after a read error a record was returned that is not the next honest record (content)")
+		}
+		expect++
+	}
+}
